@@ -567,6 +567,8 @@ mutual
     | .int x, b, h => by cases b <;> simp_all [PyObj.beq]
     | .str x, b, h => by cases b <;> simp_all [PyObj.beq]
     | .bytes x, b, h => by cases b <;> simp_all [PyObj.beq]
+    | .decimal n c e, b, h => by cases b <;> simp_all [PyObj.beq]
+    | .decimalSpecial x, b, h => by cases b <;> simp_all [PyObj.beq]
     | .tuple xs, b, h => by
       cases b with
       | tuple ys => simp only [PyObj.beq] at h; rw [PyObj.beqList_sound xs ys h]
@@ -864,8 +866,9 @@ theorem or_node (c : Cfg) (a : Ann) (l r : Ty) (hPl : P c l) (hOl : Por c l) (hP
 
 /-! ### the cases of the main induction -/
 
-theorem P_scalar (c : Cfg) (hu : c.unitHashable = true) (a : Ann) (s : Scalar) : P c (.scalar a s) := by
-  intro cmp v _ hty
+theorem P_scalar (c : Cfg) (hu : c.unitHashable = true) (ht : c.tryUnpack = false) (a : Ann) (s : Scalar) :
+    P c (.scalar a s) := by
+  intro cmp v hinv hty
   cases s <;> simp only [HasTy] at hty
   · subst hty
     exact ⟨.unit, by simp [toPy, scalarToPy], by simp [ofPy, scalarOfPy], fun _ => by simp [PyObj.hashable, hu], fun _ => by simp⟩
@@ -877,14 +880,68 @@ theorem P_scalar (c : Cfg) (hu : c.unitHashable = true) (a : Ann) (s : Scalar) :
     exact ⟨.int n, by simp [toPy, scalarToPy], by simp [ofPy, scalarOfPy], fun _ => by simp [PyObj.hashable], fun _ => by simp⟩
   · obtain ⟨n, rfl, h0, h1⟩ := hty
     refine ⟨.int n, by simp [toPy, scalarToPy], ?_, fun _ => by simp [PyObj.hashable], fun _ => by simp⟩
-    simp only [ofPy, scalarOfPy]
+    simp only [ofPy, scalarOfPy, mutezFromValue]
     rw [if_neg (by omega), if_neg (by omega)]
   · obtain ⟨n, rfl⟩ := hty
     exact ⟨.int n, by simp [toPy, scalarToPy], by simp [ofPy, scalarOfPy], fun _ => by simp [PyObj.hashable], fun _ => by simp⟩
   · obtain ⟨s, rfl, hs⟩ := hty
     exact ⟨.str s, by simp [toPy, scalarToPy], by simp [ofPy, scalarOfPy, hs], fun _ => by simp [PyObj.hashable], fun _ => by simp⟩
   · obtain ⟨b, rfl⟩ := hty
-    exact ⟨.bytes b, by simp [toPy, scalarToPy], by simp [ofPy, scalarOfPy], fun _ => by simp [PyObj.hashable], fun _ => by simp⟩
+    exact ⟨.bytes b, by simp [toPy, scalarToPy, ht], by simp [ofPy, scalarOfPy], fun _ => by simp [PyObj.hashable], fun _ => by simp⟩
+  -- address, key_hash, key, signature, chain_id: the text `from_value` keeps
+  · obtain ⟨s, rfl, hs⟩ := hty
+    exact ⟨.str s, by simp [toPy, scalarToPy], by simp [ofPy, scalarOfPy, hs, Except.map], fun _ => by simp [PyObj.hashable], fun _ => by simp⟩
+  · obtain ⟨s, rfl, hs⟩ := hty
+    exact ⟨.str s, by simp [toPy, scalarToPy], by simp [ofPy, scalarOfPy, hs, Except.map], fun _ => by simp [PyObj.hashable], fun _ => by simp⟩
+  · obtain ⟨s, rfl, hs⟩ := hty
+    exact ⟨.str s, by simp [toPy, scalarToPy], by simp [ofPy, scalarOfPy, hs, Except.map], fun _ => by simp [PyObj.hashable], fun _ => by simp⟩
+  · obtain ⟨s, rfl, hs⟩ := hty
+    exact ⟨.str s, by simp [toPy, scalarToPy], by simp [ofPy, scalarOfPy, hs, Except.map], fun _ => by simp [PyObj.hashable], fun _ => by simp⟩
+  · obtain ⟨s, rfl, hs⟩ := hty
+    exact ⟨.str s, by simp [toPy, scalarToPy], by simp [ofPy, scalarOfPy, hs, Except.map], fun _ => by simp [PyObj.hashable], fun _ => by simp⟩
+  -- bls12_381_fr: `value % modulus` of a value below the modulus; not comparable
+  · obtain ⟨n, rfl, h0, h1⟩ := hty
+    have hc : cmp = false := by cases cmp <;> simp_all [inv, Scalar.assertsNotComparable]
+    subst hc
+    refine ⟨.int n, by simp [toPy, scalarToPy], ?_, (fun h => by cases h), fun _ => by simp⟩
+    simp only [ofPy, scalarOfPy]
+    rw [Int.emod_eq_of_lt h0 h1]
+  · obtain ⟨b, rfl⟩ := hty
+    have hc : cmp = false := by cases cmp <;> simp_all [inv, Scalar.assertsNotComparable]
+    subst hc
+    exact ⟨.bytes b, by simp [toPy, scalarToPy], by simp [ofPy, scalarOfPy], (fun h => by cases h), fun _ => by simp⟩
+  · obtain ⟨b, rfl⟩ := hty
+    have hc : cmp = false := by cases cmp <;> simp_all [inv, Scalar.assertsNotComparable]
+    subst hc
+    exact ⟨.bytes b, by simp [toPy, scalarToPy], by simp [ofPy, scalarOfPy], (fun h => by cases h), fun _ => by simp⟩
+
+theorem P_contract (c : Cfg) (a : Ann) (p : Ty) : P c (.contract a p) := by
+  intro cmp v hinv hty
+  simp only [HasTy] at hty
+  obtain ⟨s, rfl, hs⟩ := hty
+  have hc : cmp = false := by cases cmp <;> simp_all [inv]
+  subst hc
+  exact ⟨.str s, by simp [toPy], by simp [ofPy, hs, Except.map], (fun h => by cases h), fun _ => by simp⟩
+
+theorem P_ticket (c : Cfg) (a : Ann) (t : Ty) (hP : P c t) : P c (.ticket a t) := by
+  intro cmp v hinv hty
+  simp only [HasTy] at hty
+  obtain ⟨tk, x, n, rfl, htk, hx, hn⟩ := hty
+  simp only [inv, Bool.and_eq_true, Bool.not_eq_true'] at hinv
+  obtain ⟨hc, hi⟩ := hinv
+  subst hc
+  obtain ⟨px, h1, h2, _, _⟩ := hP true x hi hx
+  refine ⟨.tuple [.str tk, px, .int n], by simp [toPy, h1]; rfl, ?_, (fun h => by cases h), fun _ => by simp⟩
+  simp [ofPy, htk, h2, hn]
+  rfl
+
+theorem P_lambda (c : Cfg) (hl : Spec.PyConv.CodeLaw c) (a : Ann) (p r : Ty) : P c (.lambda a p r) := by
+  intro cmp v hinv hty
+  simp only [HasTy] at hty
+  obtain ⟨code, rfl, hok⟩ := hty
+  have hc : cmp = false := by cases cmp <;> simp_all [inv]
+  subst hc
+  exact ⟨.str (c.codeText code), by simp [toPy], by simp [ofPy, hl code hok], (fun h => by cases h), fun _ => by simp⟩
 
 theorem P_option (c : Cfg) (a : Ann) (t : Ty) (hP : P c t) : P c (.option a t) := by
   intro cmp v hinv hty
@@ -1226,11 +1283,12 @@ theorem P_or (c : Cfg) (a : Ann) (l r : Ty) (hO : Por c (.or a l r)) : P c (.or 
 
 
 /-- all three statements, for every type, by induction over the type -/
-theorem roundtrip_all (c : Cfg) (hu : c.unitHashable = true) : ∀ τ : Ty, P c τ ∧ Pflat c τ ∧ Por c τ := by
+theorem roundtrip_all (c : Cfg) (hu : c.unitHashable = true) (ht : c.tryUnpack = false) (hl : Spec.PyConv.CodeLaw c) :
+    ∀ τ : Ty, P c τ ∧ Pflat c τ ∧ Por c τ := by
   intro τ
   induction τ with
   | scalar a s =>
-    exact ⟨P_scalar c hu a s, fun _ _ h => by simp [leavesInv] at h, fun _ _ h => by simp [orLeavesInv] at h⟩
+    exact ⟨P_scalar c hu ht a s, fun _ _ h => by simp [leavesInv] at h, fun _ _ h => by simp [orLeavesInv] at h⟩
   | pair a l r ihl ihr =>
     have hF := pair_node c a l r ihl.1 ihl.2.1 ihr.1 ihr.2.1
     exact ⟨P_pair c a l r hF, hF, fun _ _ h => by simp [orLeavesInv] at h⟩
@@ -1247,13 +1305,20 @@ theorem roundtrip_all (c : Cfg) (hu : c.unitHashable = true) : ∀ τ : Ty, P c 
     exact ⟨P_map c a k v ihk.1 ihv.1, fun _ _ h => by simp [leavesInv] at h, fun _ _ h => by simp [orLeavesInv] at h⟩
   | bigMap a k v ihk ihv =>
     exact ⟨P_bigMap c a k v ihk.1 ihv.1, fun _ _ h => by simp [leavesInv] at h, fun _ _ h => by simp [orLeavesInv] at h⟩
+  | contract a p _ =>
+    exact ⟨P_contract c a p, fun _ _ h => by simp [leavesInv] at h, fun _ _ h => by simp [orLeavesInv] at h⟩
+  | ticket a t ih =>
+    exact ⟨P_ticket c a t ih.1, fun _ _ h => by simp [leavesInv] at h, fun _ _ h => by simp [orLeavesInv] at h⟩
+  | lambda a p r _ _ =>
+    exact ⟨P_lambda c hl a p r, fun _ _ h => by simp [leavesInv] at h, fun _ _ h => by simp [orLeavesInv] at h⟩
 
 /-- the keys of the record a named pair converts to are the field names of its layout, in order -/
-theorem pair_record_keys (c : Cfg) (hu : c.unitHashable = true) (a : Ann) (l r : Ty) (v : Val)
+theorem pair_record_keys (c : Cfg) (hu : c.unitHashable = true) (ht : c.tryUnpack = false)
+    (hl : Spec.PyConv.CodeLaw c) (a : Ann) (l r : Ty) (v : Val)
     (hinv : inv c false (.pair a l r) = true) (hty : HasTy c (.pair a l r) v)
     (p2k : List (Path × String)) (hm : (pairLayout (.pair a l r)).pathToKey = some p2k) :
     ∃ fields, toPy c false (.pair a l r) v = .ok (.record fields) ∧ fields.map (·.1) = p2k.map (·.2) := by
-  have hF := (roundtrip_all c hu (.pair a l r)).2.1
+  have hF := (roundtrip_all c hu ht hl (.pair a l r)).2.1
   have hinv' := hinv
   have hty' := hty
   obtain ⟨x, y, rfl, hx, hy⟩ := hty
